@@ -9,7 +9,7 @@
  *   meta <len>                 routing_meta_map[0] = len                                            -> ok
  *   dom <32 hex addr> <256 hex bitmap>   domain_routing_map[addr] = struct domain_routing image      -> ok
  *   domdel <32 hex addr>       -> ok | err=<rc>
- *   pkt <wan> <64 hex flag[8] memory> <sport> <dport> <32 hex saddr> <32 hex daddr> <32 hex mac> ..  -> k=<route() result>
+ *   pkt <64 hex flag[8] memory> <sport> <dport> <32 hex saddr> <32 hex daddr> <32 hex mac> ..        -> k=<route() result>
  *   const <name>               -> =<value as compiled into the kernel program>
  *   anything else              -> -          (lines meant for the Go side / the Lean driver only)
  */
@@ -215,7 +215,7 @@ int main(void)
 				else
 					puts("ok");
 			}
-		} else if (!strcmp(toks[0], "pkt") && n >= 8) {
+		} else if (!strcmp(toks[0], "pkt") && n >= 7) {
 			__u32 flag[8];
 			__be32 saddr[4], daddr[4], mac[4];
 			/* both header types start with source, dest (network order); use a buffer that
@@ -224,11 +224,11 @@ int main(void)
 				struct tcphdr t;
 				struct udphdr u;
 			} l4;
-			unsigned sport = (unsigned)strtoul(toks[3], NULL, 10), dport = (unsigned)strtoul(toks[4], NULL, 10);
+			unsigned sport = (unsigned)strtoul(toks[2], NULL, 10), dport = (unsigned)strtoul(toks[3], NULL, 10);
 
 			memset(&l4, 0, sizeof(l4));
-			if (unhex(toks[2], (unsigned char *)flag, 32) || unhex(toks[5], (unsigned char *)saddr, 16) ||
-			    unhex(toks[6], (unsigned char *)daddr, 16) || unhex(toks[7], (unsigned char *)mac, 16)) {
+			if (unhex(toks[1], (unsigned char *)flag, 32) || unhex(toks[4], (unsigned char *)saddr, 16) ||
+			    unhex(toks[5], (unsigned char *)daddr, 16) || unhex(toks[6], (unsigned char *)mac, 16)) {
 				puts("bad-op");
 				continue;
 			}
